@@ -1,7 +1,7 @@
 (* Executable model for property C10: the verified registry (Model/Verifreg.v, unchanged) joined with
    a view of the miners' sectors and exact transcriptions of the miner-side claim logic of
-   actors/miner/src/lib.rs: validate_extension_declarations (claim lookup by LIST of ids, duplicates
-   included, the (check, maintain) accumulation), extend_sector_committment, validate_extended_expiration,
+   actors/miner/src/lib.rs: validate_extension_declarations (claim lookup by list of ids, the (check, maintain)
+   accumulation, and -- since fix 081fc6c -- the rejection of repeated ids / repeated sectors), extend_sector_committment, validate_extended_expiration,
    validate_expiration, extend_simple_qap_sector, extend_non_simple_qap_sector, and the
    ClaimAllocations call of activate_sectors_pieces (ProveCommitSectors3).  Definitions only.
 
@@ -70,11 +70,17 @@ Fixpoint lookup_claims (cl : gmap (Z * Z) claim) (provider : Z) (ids : list Z) :
       end
   end.
 
+(* a repeated element (the BTreeSet insert that fails) *)
+Fixpoint has_dupZ (l : list Z) : bool :=
+  match l with [] => false | x :: r => mem x r || has_dupZ r end.
+
 Fixpoint acc_sclaims (cl : gmap (Z * Z) claim) (provider new_exp : Z) (scs : list sclaim)
     (m : gmap Z (Z * Z)) : R (gmap Z (Z * Z)) :=
   match scs with
   | [] => Ok m
   | sc :: rest =>
+      (* a claim may be listed only once for a sector (fix 081fc6c) *)
+      if has_dupZ (sc_maintain sc ++ sc_drop sc) then Err ILLEGAL_ARGUMENT else
       match lookup_claims cl provider (sc_maintain sc ++ sc_drop sc) with
       | None => Err ILLEGAL_ARGUMENT
       | Some cs =>
@@ -83,14 +89,27 @@ Fixpoint acc_sclaims (cl : gmap (Z * Z) claim) (provider new_exp : Z) (scs : lis
       end
   end.
 
+(* the sector numbers of a declaration, as the BitField enumerates them: increasing, no repeats *)
+Fixpoint dedup_sorted (l : list Z) : list Z :=
+  match l with
+  | x :: ((y :: _) as r) => if x =? y then dedup_sorted r else x :: dedup_sorted r
+  | _ => l
+  end.
+Definition decl_sectors (d : edecl) : list Z :=
+  dedup_sorted (sortZ (ed_sectors d ++ map sc_sector (ed_claims d))).
+
+(* `declared` = the sectors named by the declarations already processed (fix 081fc6c: a sector has
+   at most one claim entry in a declaration and is named by at most one declaration) *)
 Fixpoint validate_decls (cl : gmap (Z * Z) claim) (provider : Z) (ds : list edecl)
-    (m : gmap Z (Z * Z)) : R (gmap Z (Z * Z)) :=
+    (declared : list Z) (m : gmap Z (Z * Z)) : R (gmap Z (Z * Z)) :=
   match ds with
   | [] => Ok m
   | d :: rest =>
       if WPOST_PERIOD_DEADLINES <=? ed_deadline d then Err ILLEGAL_ARGUMENT else
+      if has_dupZ (map sc_sector (ed_claims d)) then Err ILLEGAL_ARGUMENT else
+      if existsb (fun n => mem n declared) (decl_sectors d) then Err ILLEGAL_ARGUMENT else
       let? m1 := acc_sclaims cl provider (ed_new_exp d) (ed_claims d) m in
-      validate_decls cl provider rest m1
+      validate_decls cl provider rest (decl_sectors d ++ declared) m1
   end.
 
 (* ---- validate_extended_expiration + validate_expiration ---- *)
@@ -148,15 +167,6 @@ Definition extend_one (epoch new_exp n : Z) (s : sector) (spaces : gmap Z (Z * Z
      sector is "extended" to the current epoch the actor panics (abort, roll-back) *)
   if new_exp - epoch =? 0 then Err ASSERTION_FAILED else Ok s'.
 
-(* the sector numbers of a declaration, as the BitField enumerates them: increasing, no repeats *)
-Fixpoint dedup_sorted (l : list Z) : list Z :=
-  match l with
-  | x :: ((y :: _) as r) => if x =? y then dedup_sorted r else x :: dedup_sorted r
-  | _ => l
-  end.
-Definition decl_sectors (d : edecl) : list Z :=
-  dedup_sorted (sortZ (ed_sectors d ++ map sc_sector (ed_claims d))).
-
 (* declarations grouped by deadline, in order of first appearance *)
 Fixpoint group_by_deadline (ds : list edecl) (seen : list Z) (all : list edecl) : list edecl :=
   match ds with
@@ -207,7 +217,7 @@ Definition is_ctrl (c : list (Z * Z)) (miner who : Z) : bool :=
   existsb (fun x => (fst x =? miner) && (snd x =? who)) c.
 
 Definition extend2 (st : cstate) (epoch caller provider : Z) (ds : list edecl) : R cstate :=
-  let? spaces := validate_decls (claims (reg (vr st))) provider ds ∅ in
+  let? spaces := validate_decls (claims (reg (vr st))) provider ds [] ∅ in
   if negb (is_ctrl (ctrl st) provider caller) then Err FORBIDDEN else
   let? ss := apply_decls (sectors st) epoch provider (group_by_deadline ds [] ds) spaces ds in
   Ok {| vr := vr st; sectors := ss; ctrl := ctrl st |}.
